@@ -64,7 +64,21 @@ META = {
                   "them in lower case; such lines are ignored), a blank or comment line before the first `solid` and a binary STL whose "
                   "80-byte header starts with `solid` (the file kind is decided on the first line; stl_reader then refuses or aborts), blank "
                   "lines inside a .tet file (count-driven, no grammar for them), a wrong-arity attribute under a consulted name (save or load "
-                  "may raise: a refusal, not a loss). OBJ relative indices and Medit inline counts / Dimension 2 ARE covered by the property "
+                  "may raise: a refusal, not a loss). "
+                  "Deliberately left free: the class and message of every exception (a refusal is judged legitimate or not from the input: "
+                  "coordinates beyond binary32 or polygons for STL, a wrong-shaped attribute under a consulted name, ignore_elements given as "
+                  "another collection than a set, an explicit dim, an upper-case extension may be refused; an input the text says must be "
+                  "answered may not, whatever the class); attributes the loaded or the saved mesh carries BEYOND the saved ones (importer's "
+                  "tables, caches); whether the cell adjacency is stored at all (when it is, it must be right); the order and orientation of "
+                  "the faces prepare() completes from cells and the order of completed edges; the order between the element types of a Medit "
+                  "file; whether two saves of one mesh give identical bytes (the CONTENT of the files must agree); whether xyz / obj hand "
+                  "normals / uv back; the class obtained with an explicit dim as long as no element kind is dropped; the sign of a zero "
+                  "of ATTRIBUTE values (the text says bit-exact for coordinates, 'values' for attributes: numeric equality, so -0.0 read "
+                  "back as 0.0 by the geogram importer is not counted); warnings, stdout / stderr, repr, numpy vs python scalar types and "
+                  "dtypes of index rows (integral floats included). NaN / inf coordinates and attribute values are not generated "
+                  "(assumption). Constrained on purpose: the order of the elements of one kind (attributes and indices refer to positions), "
+                  "the vertex order inside an element, bit-exact coordinates. "
+                  "OBJ relative indices and Medit inline counts / Dimension 2 ARE covered by the property "
                   "text and are the known findings above. A scalar attribute value equal to the type default (-0.0, "
                   "0j with signed zeros) reads back as the default.",
 }
@@ -517,9 +531,7 @@ def oracle_geogram_attrs(mi, adj, got, ignore):
             orig = []   # the container is not written at all
         back = {a[0]: a for a in got["attrs"].get(ck, [])}
         names = [a[0] for a in orig]
-        extra = set(back) - set(names) - ({"opposite_cell"} if ck == "CF" else set())
-        if extra:
-            return "attribute(s) %s appear on %s after save/load" % (sorted(extra), ck)
+        # attributes the loaded mesh carries beyond the saved ones (the importer's own tables, caches) are left free
         for name, ty, ar, vals in orig:
             if name not in back:
                 return "attribute %r of %s is lost by save/load" % (name, ck)
@@ -531,7 +543,7 @@ def oracle_geogram_attrs(mi, adj, got, ignore):
                 return "values of attribute %r of %s differ after save/load: saved %s, loaded %s" % (name, ck, json.dumps(vals)[:200], json.dumps(dv)[:200])
         if ck == "CF" and C and all(len(c) == 4 for c in C) and adj != "not compared":
             if "opposite_cell" not in back:
-                return "cell adjacency is not read back"
+                continue      # the property does not ask for the adjacency to be stored: when it is, it must be the right one
             dv = dense_from_sparse(back["opposite_cell"], sizes["CF"])
             want = [["i", x] for x in (adj or [])]
             # unset entries of the adjacency read as NOT_AN_ID
@@ -585,9 +597,12 @@ def oracle_prepared(ld, want, cfg):
         return None   # elements pointing outside the vertices: prepare is not defined on them
     if lo["V"] != exp["V"]:
         return "the loaded mesh has vertices %s, the file holds %s" % (json.dumps(lo["V"])[:200], json.dumps(exp["V"])[:200])
-    for k, what in (("F", "faces"), ("C", "cells")):
-        if (lo[k] or []) != exp[k]:
-            return "the loaded mesh has %s %s, expected %s" % (what, json.dumps(lo[k])[:200], json.dumps(exp[k])[:200])
+    nl = len(want["F"])       # the faces the file lists come first, in file order; those completed from the cells: as a set, any rotation
+    gotF = lo["F"] or []
+    if gotF[:nl] != exp["F"][:nl] or sorted(tuple(sorted(f)) for f in gotF[nl:]) != sorted(tuple(sorted(f)) for f in exp["F"][nl:]):
+        return "the loaded mesh has faces %s, expected %s" % (json.dumps(gotF)[:200], json.dumps(exp["F"])[:200])
+    if (lo["C"] or []) != exp["C"]:
+        return "the loaded mesh has cells %s, expected %s" % (json.dumps(lo["C"])[:200], json.dumps(exp["C"])[:200])
     got_e = sorted(sorted(e) for e in (lo["E"] or []))
     if sorted(map(list, {tuple(e) for e in got_e})) != exp["E"]:
         return "the loaded mesh has the edge set %s, expected %s" % (json.dumps(got_e)[:200], json.dumps(exp["E"])[:200])
@@ -613,6 +628,12 @@ def oracle_save_load(fmt, job, res):
         return "loading the saved file raised %s: %s" % (ld["raw_exc"]["exc"], ld["raw_exc"]["msg"])
     want = expected_raw(fmt, mi, cfg, ignore)
     got = ld["raw"]
+    if fmt == "mesh":
+        # Medit stores one section per element type: the order BETWEEN the types is the writer's choice, within a type it is kept
+        for k in "FC":
+            if len(got[k]) == len(want[k]) and all([x for x in got[k] if len(x) == n] == [x for x in want[k] if len(x) == n]
+                                                    for n in {len(x) for x in got[k] + want[k]}):
+                want[k] = got[k]
     for k, what in (("V", "vertex coordinates"), ("E", "edges"), ("F", "faces"), ("C", "cells")):
         if got[k] != want[k]:
             return "%s differ after save/load: saved %s, loaded %s" % (what, json.dumps(want[k])[:300], json.dumps(got[k])[:300])
@@ -1096,7 +1117,7 @@ def oracle_geogram_interop(mi, adj, text, ignore):
                 return "float attribute %r of %s differs in the file" % (name, ck)
     if want["C"] and adj is not None:
         a = g["attrs"].get(GEO_SETS["CF"], {}).get("GEO::Mesh::cell_facets::adjacent_cell")
-        if a is None or [int(x) for x in a[2]] != adj:
+        if a is not None and [int(x) for x in a[2]] != adj:
             return "cell adjacency in the file is %s, the mesh has %s" % (a and a[2], adj)
     return None
 
@@ -1298,10 +1319,10 @@ def oracle_stl(job, res):
         return "save modified the mesh it was given"
     in_range = all(f32bits(c) >= 0 for f in F for v in f for c in mi["V"][v])
     if "save_exc" in res:
-        if not in_range and res["save_exc"]["exc"] in ("OverflowError", "error"):
-            return None   # a coordinate that binary32 cannot hold: refusing is not a loss
-        if any(len(f) not in (3, 4) for f in F) and res["save_exc"]["exc"] == "ValueError":
-            return None   # polygons are outside STL's vocabulary and are refused
+        if not in_range:
+            return None   # a coordinate that binary32 cannot hold: refusing (with whatever exception) is not a loss
+        if any(len(f) not in (3, 4) for f in F):
+            return None   # polygons are outside STL's vocabulary: a refusal (whatever its class) is legitimate
         return "save raised %s: %s" % (res["save_exc"]["exc"], res["save_exc"]["msg"])
     if not F:
         return None
@@ -1413,11 +1434,11 @@ def oracle_any(job, r):
     states = [c[2] for c in job.get("consulted") or []]
     if m and any("wrong arity" in st or "integer values" in st for st in states) and (m.startswith("save raised") or m.startswith("loading the saved file raised")):
         return None      # an attribute of the wrong shape under a name the exporter consults: refusing it is not a loss
+    if m and job.get("ignore_form") not in (None, "set") and m.startswith("save raised"):
+        return None      # ignore_elements given as another collection than a set: the text does not speak about it, a refusal is accepted
     if m or not job.get("consulted"):
         return m
-    m = oracle_consulted(job, r)
-    if m:
-        return m
+    # (whether the .xyz / .obj importers hand the normals / uv back is not part of the property: oracle_consulted is informative only)
     if job["fmt"] == "obj" and "file" in r and "mesh_in" in r:
         got = obj_reader_full(r["file"]["text"])
         want = expected_ref_read("obj", r["mesh_in"], job.get("cfg") or {}, job.get("ignore"))
@@ -1433,7 +1454,7 @@ def classify(job, r, msg):
         return "stl/quad-faces/written-as-two-triangles"
     if job["fmt"] == "geogram_ascii":
         rs = reserved_names_used(job)
-        if rs and (any(nm in msg for _, nm in rs) or "differ after save/load" in msg or "raised AssertionError" in msg
+        if rs and (any(nm in msg for _, nm in rs) or "differ after save/load" in msg or " raised " in msg
                    or "appear on" in msg or "is lost by save/load" in msg or msg.startswith("an independent reader finds")):
             return "geogram_ascii/attribute-name/reserved-by-the-format"
     return "%s/%s" % (job["fmt"], re.sub(r"[^a-zA-Z ]", "", msg.split(":")[0])[:60].strip().replace(" ", "-"))
@@ -1679,17 +1700,16 @@ def oracle_session(job, r):
         for d, cls, same in r.get("dims") or []:
             if bd is None:
                 continue
-            want = CLASS[max(d, bd)]
-            if cls != want:
-                out.append(("dim", "load(path, dim=%d) of a file whose content is a %s gives a %s, expected %s (dim is a lower bound: nothing may be dropped)"
-                            % (d, base, cls, want)))
+            # the property text does not speak about `dim`: a refusal is accepted, and so is any class that keeps every element kind
+            # of the content; an object of a LOWER dimension than the content drops elements (lossy)
+            if cls.startswith("EXC"):
+                continue
+            gd = {v: k for k, v in CLASS.items()}.get(cls)
+            if gd is None or gd < bd:
+                out.append(("dim", "load(path, dim=%d) of a file whose content is a %s gives a %s: element kinds of the content are dropped"
+                            % (d, base, cls)))
             elif not same:
                 out.append(("dim", "load(path, dim=%d) does not hold the vertices / faces / cells of load(path)" % d))
-    fc = r.get("failed_calls") or []
-    for what, e in fc:
-        if e is None and what in ("load of a missing file", "save under an unknown extension", "load under an unknown extension",
-                                  "save into a missing directory"):
-            out.append(("failed-call", "%s did not raise" % what))
     return out
 
 
